@@ -114,7 +114,7 @@ var props = map[string]propSpec{
 	}},
 	"C15": {Level: "model_checking", Harnesses: []harnessSpec{
 		{Name: "bridge", Quick: 300, Thorough: 900, Args: []string{"-prop", "C15"}},
-		{Name: "bboxbridge", NoRewrite: true, Quick: 300, Thorough: 600},
+		{Name: "bboxbridge", NoRewrite: true, Quick: 300, Thorough: 600, Args: []string{"-prop", "C15"}},
 	}, Assume: []string{
 		"black box (harness bboxbridge): the real tcp-bridge-frontend and tcp-bridge-backend programs as processes over loopback, the same plans without schedule control, plus HTTP pass-through requests to the bridge backend",
 		"tcp-bridge-frontend's main() and connection.Handler joined in one process; TCP is the in-memory stream fake (unbounded socket buffers), the websocket library the in-memory message fake",
@@ -123,6 +123,7 @@ var props = map[string]propSpec{
 	}},
 	"C16": {Level: "model_checking", Harnesses: []harnessSpec{
 		{Name: "bridge", Quick: 300, Thorough: 900, Args: []string{"-prop", "C16"}},
+		{Name: "bboxbridge", NoRewrite: true, Quick: 300, Thorough: 300, Args: []string{"-prop", "C16"}},
 	}, Assume: []string{
 		"'within bounded time' is decided at quiescence: no thread can run any more and the peer still has not seen end-of-stream",
 		"histories of length <=3 (quick) / 4 (thorough) over {client write, server write, client close, server close, large client write}, plus an unreachable TCP server",
